@@ -24,7 +24,7 @@ import (
 )
 
 func TestMain(m *testing.M) {
-	ev.Note("rule", "C06: schedules as data. The build overlay generated from the working tree calls a hook before every statement of atp/client.go and atp/server.go (the yield-point table is re-derived on every run); a delay plan is a list of (point, occurrence, delay): the hook sleeps 4-10 ms the n-th time the point is reached. Real client and real RunATPServer talk over unbuffered pipes and run a session history: three serial Execute calls; two concurrent ones followed by a third; a gated step that receives a signal while running, then another call; a step-fatal error followed by a success; Close at the end or concurrently with the last result. Quick tier: every point that the history reaches x occurrence {1,2} x every history (exhaustive single-delay sweep); thorough tier: additionally all ordered pairs of reached points on two histories and rapid-generated plans of 1-3 delays. Oracle: every Execute returns exactly once with its own run's result, Close returns, the server returns, and no goroutine with a frame in the client remains afterwards. A call that has not returned after 2 s (200x the total delay) is only reported if the session is provably quiescent: all planned delays are over and two goroutine dumps 300 ms apart show identical parked frames; otherwise the trial is waited out (30 s) or counted as inconclusive. Non-trivial: the planned point was actually reached at the planned occurrence; distinct by (history, plan).")
+	ev.Note("rule", "C06: schedules as data. The build overlay generated from the working tree calls a hook before every statement of atp/client.go and atp/server.go (the yield-point table is re-derived on every run); a delay plan is a list of (point, occurrence, delay): the hook sleeps 4-10 ms the n-th time the point is reached. Real client and real RunATPServer talk over unbuffered pipes and run a session history: three serial Execute calls; two concurrent ones followed by a third; a gated step that receives a signal while running, then another call; a step-fatal error followed by a success; an error without run ID broadcast to a pending run, followed by overlapping calls; Close at the end or concurrently with the last result. Quick tier: every point that the history reaches x occurrence {1,2} x every history (exhaustive single-delay sweep); thorough tier: additionally all ordered pairs of reached points on two histories and rapid-generated plans of 1-3 delays. Oracle: every Execute returns exactly once with its own run's result, Close returns, the server returns, and no goroutine with a frame in the client remains afterwards. A call that has not returned after 2 s (200x the total delay) is only reported if the session is provably quiescent: all planned delays are over and two goroutine dumps 300 ms apart show identical parked frames; otherwise the trial is waited out (30 s) or counted as inconclusive. Non-trivial: the planned point was actually reached at the planned occurrence; distinct by (history, plan).")
 	ev.RegisterReplay("trial", func(t *testing.T, raw json.RawMessage) {
 		var c Trial
 		if err := json.Unmarshal(raw, &c); err != nil {
@@ -175,12 +175,16 @@ func newSession() (*session, error) {
 }
 
 func (s *session) execute(run, behaviour, gate string, toStep <-chan schema.Input) *call {
+	return s.executeStep(run, "do", behaviour, gate, toStep)
+}
+
+func (s *session) executeStep(run, step, behaviour, gate string, toStep <-chan schema.Input) *call {
 	c := &call{run: run, done: make(chan struct{})}
 	s.mu.Lock()
 	s.calls = append(s.calls, c)
 	s.mu.Unlock()
 	go func() {
-		r := s.client.Execute(schema.Input{RunID: run, ID: "do", InputData: atpx.StepConfig(behaviour, gate, run)}, toStep, nil)
+		r := s.client.Execute(schema.Input{RunID: run, ID: step, InputData: atpx.StepConfig(behaviour, gate, run)}, toStep, nil)
 		c.result = r
 		c.count.Add(1)
 		close(c.done)
@@ -280,7 +284,7 @@ func anyRunnable(gs []string) bool {
 }
 
 // Histories. Each returns a verdict; it must leave no call outstanding.
-var histories = []string{"serial3", "concurrent2plus1", "signal", "error_then_success", "close_races_last"}
+var histories = []string{"serial3", "concurrent2plus1", "signal", "error_then_success", "close_races_last", "broadcast_error"}
 
 func runHistory(name string, s *session, h *hookState) verdictT {
 	wait := func(c *call) verdictT { return await(c.done, h, "Execute("+c.run+")") }
@@ -326,6 +330,31 @@ func runHistory(name string, s *session, h *hookState) verdictT {
 		if v := wait(s.execute("d3", "success", "", nil)); v.class != "" {
 			return v
 		}
+	case "broadcast_error":
+		// a work-start without a step ID draws an error WITHOUT a run ID from the server, which the client hands to
+		// every run that is pending at that moment - here to f1, whose own result is still to come - and later calls
+		// overlap again
+		c1 := s.execute("f1", "success", "gate-f1", nil)
+		if !s.gates.Wait("started:f1", 30*time.Second) {
+			return verdictT{class: "inconclusive"}
+		}
+		if v := wait(s.executeStep("f0", "", "success", "", nil)); v.class != "" {
+			return v
+		}
+		s.gates.Open("gate-f1")
+		if v := wait(c1); v.class != "" {
+			return v
+		}
+		c2, c3 := s.execute("f2", "success", "", nil), s.execute("f3", "success", "", nil)
+		if v := wait(c2); v.class != "" {
+			return v
+		}
+		if v := wait(c3); v.class != "" {
+			return v
+		}
+		if v := wait(s.execute("f4", "success", "", nil)); v.class != "" {
+			return v
+		}
 	case "close_races_last":
 		if v := wait(s.execute("e1", "success", "", nil)); v.class != "" {
 			return v
@@ -346,7 +375,7 @@ func expectedOutput(run string) (string, bool) {
 	switch run {
 	case "b2":
 		return "error", true
-	case "d1", "d2":
+	case "d1", "d2", "f0":
 		return "", false
 	}
 	return "success", true
@@ -426,6 +455,9 @@ func runTrial(tr Trial) (string, string) {
 		}
 		if n := c.count.Load(); n != 1 {
 			return fmt.Sprintf("Execute(%s) returned %d times\n%s", c.run, n, head), "count"
+		}
+		if c.run == "f1" {
+			continue // may have been handed the broadcast error or its own result, whichever came first: both are returns
 		}
 		want, ok := expectedOutput(c.run)
 		if ok {
@@ -559,7 +591,7 @@ func TestSingleDelaySweep(t *testing.T) {
 	if sh, _ := ev.Shard(); sh == 0 {
 		ev.Note("points_never_reached_by_the_histories", fmt.Sprintf("%d: %s", len(names), strings.Join(names, "; ")))
 	}
-	ev.Exhaustive("single-delay sweep: every reached yield point x occurrence {1,2} x 5 histories")
+	ev.Exhaustive("single-delay sweep: every reached yield point x occurrence {1,2} x 6 histories")
 }
 
 // TestPairSweep (thorough): all ordered pairs of reached points on two histories.
